@@ -15,6 +15,8 @@ package main
 //             tcp+tls   TLS listener/dialer, real SocketServer tcp+tls://127.0.0.1:0 + upstream.Socket
 //             stdin+tls real IoServer + upstream.InputOutput (documented exception: no verification)
 //             udp       StartTLS over kcp, real PacketServer on 127.0.0.1:0 + upstream.Packet (thorough)
+//             wss       HTTPS websocket, real HttpServer + upstream.Http (thorough)
+//             ws        StartTLS over a plain websocket, real HttpServer + upstream.Http (thorough)
 //   hostname  the host part of the upstream address (pipe: any; tcp*: localhost | 127.0.0.1; stdin: -)
 //   scert     good | nameonly | wronghost | untrusted | expired
 //   cinsecure 0|1     cca  A|-     ccert  none|good|foreign     sreq 0|1     sca  A|-
@@ -23,6 +25,7 @@ package main
 import (
 	"fmt"
 	"io"
+	stdlog "log"
 	"net"
 	"net/url"
 	"os"
@@ -209,7 +212,7 @@ type c05Cell struct {
 }
 
 var (
-	c05Carriers = []string{"pipe", "tcp", "tcp+tls", "stdin+tls", "udp"}
+	c05Carriers = []string{"pipe", "tcp", "tcp+tls", "stdin+tls", "udp", "wss", "ws"}
 	c05SCerts   = []string{"good", "nameonly", "wronghost", "untrusted", "expired"}
 	c05CCerts   = []string{"none", "good", "foreign"}
 )
@@ -227,7 +230,7 @@ func parseC05Cell(op string) (c05Cell, bool) {
 		if strings.ContainsAny(c.hostname, ":/[]") || c.hostname == "-" {
 			return c, false
 		}
-	case "tcp", "tcp+tls", "udp":
+	case "tcp", "tcp+tls", "udp", "wss", "ws":
 		if c.hostname != "localhost" && c.hostname != "127.0.0.1" {
 			return c, false
 		}
@@ -265,7 +268,10 @@ func (c c05Cell) clientAcceptable() bool { return c.ccert == "good" && c.sca == 
 
 type authmatrixComp struct{}
 
-func init() { register("authmatrix", authmatrixComp{}) }
+func init() {
+	stdlog.SetOutput(io.Discard) // net/http reports refused TLS handshakes on the standard logger
+	register("authmatrix", authmatrixComp{})
+}
 
 // Exec runs the cell; an attempt that neither completes nor fails within the deadline is retried
 // (the tunnel stack below TLS occasionally loses the multistream acknowledgement, independent of
@@ -345,6 +351,26 @@ func (authmatrixComp) exec1(op string) (string, string, string, bool) {
 		_, port, _ := net.SplitHostPort(pc.LocalAddr().String())
 		cu, _ := url.Parse("udp://" + cell.hostname + ":" + port)
 		ups = &upstream.Packet{Address: addr.ProtoAddress{URL: *cu}}
+	case "wss", "ws":
+		// HttpServer binds ws.Address.Host itself: pick a free loopback port first
+		probe, err := net.Listen("tcp", "127.0.0.1:0")
+		if err != nil {
+			return "err server-startup", "", "startup-error", false
+		}
+		_, port, _ := net.SplitHostPort(probe.Addr().String())
+		_ = probe.Close()
+		hs := server.NewHttpServer()
+		hs.ServerConfig = srvCfg
+		scheme := map[string]string{"wss": "https", "ws": "http"}[cell.carrier]
+		su, _ := url.Parse(scheme + "://127.0.0.1:" + port)
+		hs.Address = addr.ProtoAddress{URL: *su}
+		hs.Endpoints = server.WebsocketEndpointList{{Endpoint: "/ws"}}
+		if err := hs.Startup(channels); err != nil {
+			return "timeout", "", "startup-error", false // port raced away: retried by Exec
+		}
+		shutdown = func() { _ = hs.Shutdown() }
+		cu, _ := url.Parse(cell.carrier + "://" + cell.hostname + ":" + port + "/ws")
+		ups = &upstream.Http{Address: addr.ProtoAddress{URL: *cu}}
 	case "stdin+tls":
 		a, b := newBufPipe()
 		st := server.NewIoServer()
@@ -448,7 +474,7 @@ func (authmatrixComp) Gen(r *Rand, tier string, emit func(string)) {
 	carriers := []ch{{"pipe", []string{"server.test", "127.0.0.1"}}, {"tcp", []string{"localhost", "127.0.0.1"}},
 		{"tcp+tls", []string{"localhost", "127.0.0.1"}}, {"stdin+tls", []string{"-"}}}
 	if tier == "thorough" {
-		carriers = append(carriers, ch{"udp", []string{"127.0.0.1"}})
+		carriers = append(carriers, ch{"udp", []string{"127.0.0.1"}}, ch{"wss", []string{"localhost", "127.0.0.1"}}, ch{"ws", []string{"localhost"}})
 	}
 	for _, c := range carriers {
 		for _, h := range c.hosts {
@@ -463,7 +489,7 @@ func (authmatrixComp) Gen(r *Rand, tier string, emit func(string)) {
 									if tier != "thorough" && (cca == "-" || sca == "-") && r.Intn(4) != 0 {
 										continue
 									}
-									if c.carrier == "udp" && (cca == "-" || sca == "-") {
+									if (c.carrier == "udp" || c.carrier == "ws") && (cca == "-" || sca == "-") {
 										continue
 									}
 									emit(strings.Join([]string{c.carrier, h, sc, b(ins), cca, cc, b(sreq), sca}, " "))
